@@ -71,7 +71,7 @@ func VerifHarness_C16_connect_handler() {
 // ConnectionBind handler: right id and owner => success response, the peer connection is handed over
 // exactly once (two copy loops), afterwards both ends are closed and the id is gone; otherwise 400 and nothing.
 //
-//verif:props=C16,C03,C19,C04 replay=model bounds="one pending peer connection; CONNECTION-ID arbitrary (2^32); user = owner or another; arbitrary credential verdicts; request arrives on a stream (STUNConn) or datagram socket"
+//verif:props=C16,C03,C19,C04,C18 replay=model bounds="one pending peer connection; CONNECTION-ID arbitrary (2^32); user = owner or another; arbitrary credential verdicts; request arrives on a stream (STUNConn) or datagram socket"
 func VerifHarness_C16_connection_bind_handler() {
 	s := vNewSrv(false, false)
 	c1 := allocation.VUDPAddr4()
